@@ -566,6 +566,14 @@ func (c *FnCtx) everyArrays(pkg *types.Package, m ModItem) []string {
 		c.errs = append(c.errs, "modifies every: unknown type "+m.Type)
 		return nil
 	}
+	if m.Name == "" {
+		// allmem T
+		var out []string
+		for _, lf := range leavesOf(t) {
+			out = append(out, arrName("M", elemKey(t), lf.Path, lf.Sort))
+		}
+		return out
+	}
 	ft, ghost := c.fieldType(t, m.Name)
 	if ft == nil {
 		c.errs = append(c.errs, "modifies every: unknown field "+m.Type+"."+m.Name)
@@ -723,13 +731,13 @@ func (c *FnCtx) doAppend(st *State, in ssa.Instruction, s, t Val, rt types.Type,
 			if tconst && tn <= 4 {
 				row := sel(arr, s.Base())
 				for j := int64(0); j < tn; j++ {
-					row = sto(row, fmt.Sprintf("(+ %s %s %d)", s.Off(), s.Len(), j), sel2(arr, t.Base(), fmt.Sprintf("(+ %s %d)", t.Off(), j)))
+					row = sto(row, slot(s.Off(), plus(s.Len(), fmt.Sprintf("%d", j))), sel2(arr, t.Base(), slot(t.Off(), fmt.Sprintf("%d", j))))
 				}
 				c.heapSet(s1, name, sto(arr, s.Base(), row))
 			} else {
 				row := c.fresh("append.row", "(Array Int "+lf.Sort+")")
-				s1.assume(fmt.Sprintf("(forall ((j Int)) (= (select %s j) (ite (and (<= (+ %s %s) j) (< j (+ %s %s))) (select (select %s %s) (+ %s (- j (+ %s %s)))) (select (select %s %s) j))))",
-					row, s.Off(), s.Len(), s.Off(), newLen, arr, t.Base(), t.Off(), s.Off(), s.Len(), arr, s.Base()))
+				s1.assume(fmt.Sprintf("(forall ((j Int)) (! (= (select %s j) (ite (and (<= (+ %s %s) j) (< j (+ %s %s))) (select (select %s %s) %s) (select (select %s %s) j))) :pattern ((select %s j))))",
+					row, s.Off(), s.Len(), s.Off(), newLen, arr, t.Base(), slot(t.Off(), "(- j (+ "+s.Off()+" "+s.Len()+"))"), arr, s.Base(), row))
 				c.heapSet(s1, name, sto(arr, s.Base(), row))
 			}
 		}
@@ -751,8 +759,8 @@ func (c *FnCtx) doAppend(st *State, in ssa.Instruction, s, t Val, rt types.Type,
 				zero = "str_empty"
 			}
 			row := c.fresh("append.row", "(Array Int "+lf.Sort+")")
-			st.assume(fmt.Sprintf("(forall ((j Int)) (= (select %s j) (ite (and (<= 0 j) (< j %s)) (select (select %s %s) (+ %s j)) (ite (and (<= %s j) (< j %s)) (select (select %s %s) (+ %s (- j %s))) %s))))",
-				row, s.Len(), arr, s.Base(), s.Off(), s.Len(), newLen, arr, t.Base(), t.Off(), s.Len(), zero))
+			st.assume(fmt.Sprintf("(forall ((j Int)) (! (= (select %s j) (ite (and (<= 0 j) (< j %s)) (select (select %s %s) %s) (ite (and (<= %s j) (< j %s)) (select (select %s %s) %s) %s))) :pattern ((select %s j))))",
+				row, s.Len(), arr, s.Base(), slot(s.Off(), "j"), s.Len(), newLen, arr, t.Base(), slot(t.Off(), "(- j "+s.Len()+")"), zero, row))
 			c.heapSet(st, name, sto(arr, r, row))
 		}
 		k(st, sliceVal(rt, r, "0", newLen, nc))
@@ -779,8 +787,8 @@ func (c *FnCtx) doCopy(st *State, dst, src Val, k func(st *State, res Val)) {
 		arr := c.heapGet(st.heap, name)
 		row := c.fresh("copy.row", "(Array Int "+lf.Sort+")")
 		if src.K == KSlice {
-			st.assume(fmt.Sprintf("(forall ((j Int)) (= (select %s j) (ite (and (<= %s j) (< j (+ %s %s))) (select (select %s %s) (+ %s (- j %s))) (select (select %s %s) j))))",
-				row, dst.Off(), dst.Off(), n, arr, src.Base(), src.Off(), dst.Off(), arr, dst.Base()))
+			st.assume(fmt.Sprintf("(forall ((j Int)) (! (= (select %s j) (ite (and (<= %s j) (< j (+ %s %s))) (select (select %s %s) %s) (select (select %s %s) j))) :pattern ((select %s j))))",
+				row, dst.Off(), dst.Off(), n, arr, src.Base(), slot(src.Off(), "(- j "+dst.Off()+")"), arr, dst.Base(), row))
 		} else {
 			c.declareFun("str_at", []string{"Int", "Int"}, "Int")
 			st.assume(fmt.Sprintf("(forall ((j Int)) (= (select %s j) (ite (and (<= %s j) (< j (+ %s %s))) (str_at %s (- j %s)) (select (select %s %s) j))))",
